@@ -256,6 +256,37 @@ def _flatten(t, eff, env):
     return _canon_seq(items)
 
 
+def peel_fold(v):
+    """fold over […xs, y] = step(fold over xs, y): trailing single elements of the folded sequence are applied, so that
+    `fold(f) over [fields…, last]` and `f(fold(f) over fields, last)` have one normal form"""
+    if isinstance(v, dict):
+        return {k: peel_fold(x) for k, x in v.items()}
+    if not isinstance(v, tuple):
+        return v
+    if v[:1] == ("F",) and len(v) == 4 and len(v[3]) == 1:
+        init, seq, step = peel_fold(v[1]), peel_fold(v[2]), peel_fold(v[3][0])
+        if isinstance(seq, tuple) and seq[:1] == ("S",):
+            items = list(seq[1])
+            if not items:
+                return init
+            if items[-1][0] == "one":
+                inner = peel_fold(("F", init, _canon_seq(items[:-1]), (step,)))
+                return _subst(step, {ACC: inner, EL: items[-1][1]})
+        return ("F", init, seq, (step,))
+    return tuple(peel_fold(x) for x in v)
+
+
+def _subst(v, m):
+    if isinstance(v, dict):
+        return {k: _subst(x, m) for k, x in v.items()}
+    if isinstance(v, tuple):
+        for k, r in m.items():
+            if v == k:
+                return r
+        return tuple(_subst(x, m) for x in v)
+    return v
+
+
 def show(v):
     if not isinstance(v, tuple):
         return repr(v)
@@ -292,7 +323,7 @@ def alt_values(fx, g, rule, alt):
         if isinstance(v, tuple) and v[:1] == ("abnormal",):
             per.setdefault(lhs, set()).add(_freeze(("abnormal", v[1])))
         else:
-            per.setdefault(lhs, set()).add(_freeze(norm(v, eff)))
+            per.setdefault(lhs, set()).add(_freeze(peel_fold(norm(v, eff))))
     return per, probs
 
 
@@ -333,7 +364,7 @@ def check(ck, fx, g):
                     rule, "; ".join(" ".join(s) or "ε" for s, _ in spec.get(rule, [])) or "none"))
                 continue
             seen_spec.add((rule, tuple(syn)))
-            want = {_freeze(w) for w in cands[0]}
+            want = {_freeze(peel_fold(w)) for w in cands[0]}
             bad = {lhs: vs for lhs, vs in per.items() if vs - {("abnormal", "panic")} != want}
             extra_abn = rule != "Number" and any(("abnormal", "panic") in vs for vs in per.values())
             ok = not bad and not extra_abn and bool(per)
